@@ -73,3 +73,10 @@ Theorem c06_viss_disabled_subscribe : forall st path st' e,
   Viss.viss_subscribe st Viss.TokOpen path = (st', inr e) -> e <> Viss.VTokenMissing /\ e <> Viss.VTokenInvalid.
 Proof. exact Proofs.Viss.viss_open_subscribe_not_token_error. Qed.
 Print Assumptions c06_viss_disabled_subscribe.
+
+(* the same header text presented again after the token's expiry instant is refused, whatever it was answered before:
+   no verdict on a token outlives the token *)
+Theorem c06_same_token_after_expiry_refused : forall st rpc k h, snd (call true st rpc k (expire h)) = UNAUTHENTICATED.
+Proof. exact reuse_after_expiry_refused. Qed.
+Print Assumptions c06_same_token_after_expiry_refused.
+
